@@ -17,6 +17,7 @@ var commands = map[string]func([]string) error{
 	"conc":      cmdConc,
 	"smtp":      cmdSMTP,
 	"rest":      cmdRest,
+	"restrace":  cmdRestRace,
 	"sanitize":  cmdSanitize,
 	"pop3":      cmdPOP3,
 	"naming":    cmdNaming,
